@@ -153,6 +153,11 @@ class Prover:
     except OSError:
       scale = 1.0
     self.load_scale = scale
+    # a task whose obligations have already consumed `budget_s` of solver time (only seen on changed code, where many
+    # obligations turn `sat`/`unknown` after long searches) gives the remaining obligations short timeouts: they are
+    # then `unknown` -> replayed; on the unchanged tree every task stays far below the budget
+    self.budget_s = 300.0 * scale
+    self.t_created = time.time()
     self.timeout_s = timeout_s * scale
     self.first_s = first_s
     self.max_cases = max_cases
@@ -197,6 +202,8 @@ class Prover:
     t0 = time.time()
     q0, s0 = self.queries, self.solver_s
     timeout_s = (timeout_s * self.load_scale) if timeout_s else self.timeout_s
+    if self.solver_s > self.budget_s:
+      timeout_s = min(timeout_s, 5.0)
     assume = [a for a in assume if is_z3(a) or a is not True]
     if any(a is False for a in assume):
       res = Result(name=name, status='unsat', cases=0, note='assumption literally false', kind=kind)
@@ -223,7 +230,7 @@ class Prover:
     ncases = [0]
     model = [None]
     weak = [False]
-    budget = max(timeout_s * 4, 45)
+    budget = max(timeout_s * 4, 45) if self.solver_s <= self.budget_s else 10.0
     deadline = time.time() + budget
 
     def both(neg_f, t_s):
